@@ -173,6 +173,19 @@ CLAIMS = {
         note='trusted: Coq kernel+vm_compute; Chunks.v hand models (kernel encoders on the spec side) validated against the real '
              'decoders; pairing model of C04; regenerated rows for the syscall path arguments; UTF-8 decoding is a library oracle',
         technique='Coq proof (encoder/reassembler round trip, pairing spec) + correspondence', ref='DESIGN.md §5 C08'),
+    'C13': dict(
+        text='Coq theorems c13_helpers_not_reported (for every configuration and code: fed && post_keep = requested), '
+             'c13_machine_commutes (the pairing machine commutes with ANY filter on the event code: same traces, same order, '
+             'windows restricted), c13_commute_class, c13_commute_tid, c13_closed + c13_bsd_feeds_lookups + '
+             'c13_trace_class_always_fed (what a decoder reads is always fed), c13_idempotent; closed under the global context. '
+             'Correspondence through the public API with request sequences on one object (traces, callstacks, kevents mixed), '
+             'tuple-valued class filters, process filter against the process column of the unfiltered listing. A genuine defect '
+             'found while modelling (a requested subclass of a helper class was dropped) was repaired by fix commit 5a9c12c.',
+        note='trusted: Coq kernel+vm_compute; hand model FiltersTraces.v of traces() over the pairing model of C04, validated '
+             'each run; identical TEXT is argued from the regenerated rows\' read sets and compared differentially; subclass '
+             'commutation is claimed for BSD subclasses as the property states',
+        technique='Coq proof (filter/pairing commutation by induction over histories) + API-level correspondence',
+        ref='DESIGN.md §5 C13'),
     'C12': dict(
         text='Coq theorems c12_events/sat_meaning/logs/no_logs_in_events/no_events_in_logs: for EVERY stream and EVERY '
              'configuration the filtered listings equal `filter` of the unfiltered listing by the stated predicate (order and '
